@@ -235,6 +235,30 @@ def _h_sieve(prefix, m):
     return fn
 
 
+SIEVE_DIGIT_LINES = [b'HAVESPACE "a" %D', b'PUTSCRIPT "a" {%D+}', b'PUTSCRIPT "a" {%D}', b'AUTHENTICATE "PLAIN" {%D+}',
+                     b'CHECKSCRIPT {%D+}', b'HAVESPACE {%D+}']
+
+
+def _h_sieve_digits(ndigits):
+    """a run of thousands of digits where the ManageSieve grammar has a number (Python refuses to convert more than
+    4300 digits): the parser answers with a command or NotParseable, nothing else escapes (the run is concrete, see
+    conn:digit_runs)"""
+    def fn(eng):
+        from pysymex import Outcome, FuelExhausted
+        which = eng.choose('line', len(SIEVE_DIGIT_LINES))
+        pre, _, post = SIEVE_DIGIT_LINES[which].partition(b'%D')
+        line = pre + b'1' * ndigits + post + b'\r\n'
+        wit = lambda mdl: {'sieve': line.hex()}  # noqa: E731
+        try:
+            kind, detail = _outcome(_g, lambda: _g['sieve_cmd'].Command.parse(memoryview(line), _g['Params']()), len(line) + 8)
+        except FuelExhausted as exc:
+            return Outcome(False, witness=wit, site='hang', info=str(exc))
+        if kind == 'escape':
+            return Outcome(False, witness=wit, site='escape', info=detail)
+        return Outcome(True, witness=wit, site=kind)
+    return fn
+
+
 PREFIXES_Q = [
     (b'', 4), (b'a ', 4), (b'a SELECT ', 4), (b'a SELECT "', 4), (b'a LOGIN ', 3), (b'a LIST "" ', 3),
     (b'a SEARCH ', 4), (b'a SEARCH SUBJECT ', 3), (b'a SEARCH CHARSET utf-8 SUBJECT ', 3),
@@ -321,6 +345,8 @@ def harnesses(tier):
     hs.append(Harness('seqset_work_bound', _h_seqset_work(),
                       {'numbers': '1..2^32-1 (symbolic) or *', 'max_value': '0..2^32-1 (symbolic)',
                        'shapes': ['n', '*', 'a:b', 'a:*', '*:b']}, replay='seqwork'))
+    hs.append(Harness('sieve:digit_runs[5000]', _h_sieve_digits(5000), {'digits': 5000, 'lines': [x.decode() for x in SIEVE_DIGIT_LINES]},
+                      replay='sieve', fuel=2000000, task_budget=60))
     for prefix, m in SIEVE_Q:
         for k in range(0, m + extra + 1):
             hs.append(Harness('sieve:%s+%d' % (prefix.decode(), k), _h_sieve(prefix, k),
